@@ -121,7 +121,7 @@ theorem list_one_entry (kv : KV) (c : Caller) (aok sok : Bool) :
 /-- non-vacuity: a granted get on an existing secret discloses a value (so the hypothesis of
 `disclosure_recorded` is satisfiable) -/
 example : ∃ kv c, (step Cfg.std kv c (.get "a") true true).2.1.disclosesValue = true :=
-  ⟨{ secrets := (∅ : SMap).insert "a" (newSecret [1]), gen := 1 },
+  ⟨{ secrets := (∅ : SMap).insert "a" (newSecret [1]), gen := 1, disk := ∅ },
    { principal := "p", rules := [{ actions := ["get"], secrets := ["*".toList] }] },
    by
      have hg : grantedStd { principal := "p", rules := [{ actions := ["get"], secrets := [['*']] }] } "get" "a" = true := by decide
